@@ -22,10 +22,12 @@ import MetricsVerif.Driver.LocalRec
 import MetricsVerif.Driver.Atomics
 import MetricsVerif.Driver.StatsdAgg
 import MetricsVerif.Driver.C15
+import MetricsVerif.Driver.Tcp
 
 open MetricsVerif.Driver
 
 structure DState where
+  tcp : Option MetricsVerif.Tcp.State := none
   c15 : C15.St := {}
   localrec : Option LocalRec.DSt := none
   allow : Option MetricsVerif.Allowlist.Sess := none
@@ -96,6 +98,10 @@ def step (st : DState) (line : String) : DState × String :=
   | "c15" :: args =>
     match C15.handle st.c15 args with
     | some (c, o) => ({ st with c15 := c }, o)
+    | none => (st, "bad-op")
+  | "tcp" :: args =>
+    match Tcp.handle st.tcp args with
+    | some (t, o) => ({ st with tcp := t }, o)
     | none => (st, "bad-op")
   | _ => (st, "bad-op")
 
